@@ -17,7 +17,7 @@ open Drv Lean
 
 def genFor (prop tier : String) (seed : Nat) : Except String (Array Case) :=
   match prop with
-  | "C01" => pure (genC01Cases tier seed ++ pairwiseSimpleCases "c01" ++ exhaustiveTreeCases "c01" ++ genComboCases tier seed)
+  | "C01" => pure (genC01Cases tier seed ++ pairwiseSimpleCases "c01" ++ exhaustiveTreeCases "c01" ++ sharedGroupWitnessCases "c01" ++ genComboCases tier seed)
   | "COMBO" => pure (genComboCases tier seed)
   | "C02" => pure (genC02Cases tier seed ++ pairwiseNestedCases "c02" ++ nestedOpPerTypeCases "c02" ++ genComboBraceCases tier seed)
   | "C03" =>
@@ -49,7 +49,8 @@ def genFor (prop tier : String) (seed : Nat) : Except String (Array Case) :=
 
 def judgeFor (prop : String) : Except String (Case → ObsLine → Verdict) :=
   match prop with
-  | "C01" => pure (fun c o => if c.op = "combo" then judgeCombo c o else judgeParse c o)
+  | "C01" => pure (fun c o => if c.op = "combo" then judgeCombo c o
+                            else if c.tag = "shared-groups" then judgeSharedGroups c o else judgeParse c o)
   | "COMBO" => pure judgeCombo
   | "C02" => pure (fun c o => if c.op = "combo" then judgeCombo c o
                             else if c.tag = "operator-per-type" then judgeNestedOps c o else judgeParse c o)
